@@ -543,7 +543,7 @@ func (c *c07) genRandom(seed int64, base, n int) {
 			continue
 		}
 		r := rand.New(rand.NewSource(seed*1000003 + int64(i)))
-		c.setSchema(randSchema(r))
+		c.setSchema(randSchemaK(r, pIntStrKeyKinds)) // every integer key kind the library reads (the property names int* / uint* / string)
 		for k := 0; k < 3; k++ {
 			m := randMsgPB(r, c.env.rroot, 0, pbGenCfg{maxStr: 400})
 			doc := refMarshalAnyOrder(r, m)
